@@ -203,6 +203,12 @@ def encoder_settings(tier, seed):
              ([two_], [opt_] * 3, ()), ([any_], [opt_] * 3, ())]
     for w in (cond3[:4] if tier == 'quick' else cond3):
         sp.append(w + ('all-patterns',))
+    # partitioning / down-selecting shapes whose sources need a minimum number of connections (corrections that take
+    # a target away from a source with spare connections), three and four nodes a side
+    min1_, min2_ = (('min', 1), False), (('min', 2), False)
+    part = [([min1_] * 3, [opt_] * 3, ()), ([min1_] * 3, [one_] * 3, ()), ([min2_] * 2, [opt_] * 4, ()), ([min1_] * 4, [one_] * 4, ())]
+    for w in (part if tier == 'thorough' else part[:3]):
+        sp.append(w + ('present-only',))
     for w in (wide if tier == 'quick' else wide + [([any_], [opt_] * 4, ()), ([any_, any_], [opt_] * 3, ()), ([any_, any_], [any_, opt_], ())]):
         sp.append(w + ('present-only',))
     return sp
@@ -256,7 +262,9 @@ def encoder_chunk(chunk, tier, seed):
         if sum(len(v) for v in valid.values()) == 0:
             continue
         for fname, fac, imp, kind in facs:
-            wit0 = [fname, label, 'setup']
+            # class of a failing situation: encoder factory / imputer and the shape of the connection problem
+            fshape = f'{fname}|{len(src)}x{len(tgt)}'
+            wit0 = [fshape, label, 'setup']
             try:
                 enc = fac(imp())
                 from adsg_core.optimization.assign_enc.lazy_encoding import LazyEncoder
@@ -283,7 +291,7 @@ def encoder_chunk(chunk, tier, seed):
                     continue
                 src_ex = [existence.has_src(i) for i in range(len(src))]
                 tgt_ex = [existence.has_tgt(j) for j in range(len(tgt))]
-                wclass = fname
+                wclass = fshape
                 nt = (fname, label, str(src_ex), str(tgt_ex))
                 reached = set()
                 vec2mat = {}
@@ -336,7 +344,7 @@ def encoder_chunk(chunk, tier, seed):
             for k, u in enumerate(used):
                 if max(len(v) for v in valid.values()) < 2:
                     break   # settings with at most one connection set per pattern: no variable is needed (C12's clause)
-                ctx.check('C10.every-variable-has-two-used-values', len(u) >= 2, [fname, label, 'used-values', k],
+                ctx.check('C10.every-variable-has-two-used-values', len(u) >= 2, [fshape, label, 'used-values', k],
                           f'variable {k} ({dvs[k].n_opts} options) only takes {sorted(u)}', (fname, label, 'used', k))
         if len(ctx.samples) < 1:
             ctx.samples.append(dict(settings=label, encoders=len(facs)))
